@@ -296,7 +296,17 @@ where
                     },
                     match body.value {
                         Expr::LetBindings(..) if is_recursive => {
-                            self.pretty_expr_(binds.last().unwrap().span().end(), body)
+                            // `in` was printed above, continue after the one in the source so
+                            // that the comments following it are found
+                            let end = binds.last().unwrap().span().end();
+                            let after_in = if end != BytePos::default() && end <= body.span.start()
+                            {
+                                in_keyword(self.source.src_slice(Span::new(end, body.span.start())))
+                                    .map(|i| BytePos::from(end.to_usize() as u32 + i as u32 + 2))
+                            } else {
+                                None
+                            };
+                            self.pretty_expr_(after_in.unwrap_or(end), body)
                         }
                         _ => self.pretty_body(binds.last().unwrap().span().end(), body),
                     }
